@@ -370,7 +370,9 @@ type gcCase struct {
 	Clobber  int    `json:"clobber,omitempty"`
 	Cap      int    `json:"cap"`
 	GCers    int    `json:"gcers"` // goroutines forcing collections
-	Ops      []gcOp `json:"ops"`
+	// PlainFirst: the pointer-free components are registered before the pointer-holding ones.
+	PlainFirst bool   `json:"plainfirst,omitempty"`
+	Ops        []gcOp `json:"ops"`
 }
 
 type gcEnt struct {
@@ -397,9 +399,13 @@ type gcWorld struct {
 	moves   int
 }
 
-func newGCWorld(cap int) *gcWorld {
+func newGCWorld(cap int, plainFirst bool) *gcWorld {
 	w := ecs.NewWorld(ecs.NewConfig().WithCapacityIncrement(cap))
 	g := &gcWorld{w: &w, book: newRefBook(), labels: map[string]bool{}}
+	if plainFirst {
+		// the pointer-free components get the lowest ids
+		g.ids.plain, g.ids.tag = ecs.ComponentID[PPlain](&w), ecs.ComponentID[PTag](&w)
+	}
 	g.ids.ptr, g.ids.sli, g.ids.mp = ecs.ComponentID[PPtr](&w), ecs.ComponentID[PSli](&w), ecs.ComponentID[PMap](&w)
 	g.ids.str, g.ids.rel = ecs.ComponentID[PStr](&w), ecs.ComponentID[PRel](&w)
 	g.ids.plain, g.ids.tag = ecs.ComponentID[PPlain](&w), ecs.ComponentID[PTag](&w)
@@ -673,6 +679,34 @@ func (g *gcWorld) apply(op gcOp) string {
 				g.moves++
 			}
 		}
+	case "batchuntag": // batch move back: every tagged entity loses the tag
+		w.Batch().Remove(ecs.All(g.ids.tag), g.ids.tag)
+		for _, e := range g.ents {
+			if e.alive && e.tag {
+				e.tag = false
+				g.moves++
+			}
+		}
+	case "batchexch": // plain -> tag in one batch call, for entities with plain and without tag
+		f := ecs.All(g.ids.plain).Without(g.ids.tag)
+		w.Batch().Exchange(&f, []ecs.ID{g.ids.tag}, []ecs.ID{g.ids.plain})
+		for _, e := range g.ents {
+			if e.alive && e.plain && !e.tag {
+				e.plain, e.tag = false, true
+				g.moves++
+			}
+		}
+	case "batchrempointer": // a pointer-holding component is removed from all its carriers in one batch call
+		for _, e := range g.ents {
+			if e.alive && len(e.mp) > 0 {
+				g.book.release(e.mp[0])
+				g.pending = append(g.pending, e.mp[0])
+				e.mp = nil
+				g.moves++
+				g.labels["pointer component removed by a batch call"] = true
+			}
+		}
+		w.Batch().Remove(ecs.All(g.ids.mp), g.ids.mp)
 	case "settarget":
 		if e := g.pick(op.E, func(e *gcEnt) bool { return e.hasRel }); e != nil {
 			t := g.pick(op.T, anyEnt)
@@ -719,7 +753,7 @@ func runGCCase(c *gcCase) (msg string, labels map[string]bool, moves int) {
 	if c.Template > 0 {
 		return runTemplate(c.Template-1, c.Tok, c.Clobber, true), map[string]bool{"template " + templateNames[(c.Template-1)%len(templateNames)]: true}, 0
 	}
-	g := newGCWorld(c.Cap)
+	g := newGCWorld(c.Cap, c.PlainFirst)
 	stop := make(chan struct{})
 	var wg sync.WaitGroup
 	var cycles int64
@@ -771,7 +805,7 @@ func runGCCase(c *gcCase) (msg string, labels map[string]bool, moves int) {
 
 func TestC14(t *testing.T) {
 	withStats(t, "C14", func(st *core.Stats) {
-		st.Rule = "(t) 13 call-site templates (World.Set/Assign/NewEntityWith, Builder.New/NewBatchQ/Add, generic Map.Set/Map1.NewWith/Assign, slice, string, write through the Get pointer) whose component literal and referent are locals of a non-inlined function: after it returns the stack is overwritten (generated depth), a GC forced, the entity moved to another table and the referent read back - all templates are walked in every run; (a) generated histories of creations (three supply paths), removals, RemoveEntities, Add/Remove of other components (moves between tables), batch moves, relation retargeting, overwriting and Reset on entities whose components hold *T, []T, map, string(+pointer), string only, interface only, func (closure) only, and a relation component with a pointer, referents allocated before and reachable only through the component, with capacity increment 1-2 (growth every few entities) while 0-4 goroutines force collections continuously; after every op every referent is read through its component (token and padding intact) and no referent may have been finalized while its component exists; (b) after removal of the component/entity, overwriting or Reset, a deterministic flush (GC, sentinel finalizer, GC, three rounds) must have run the finalizer of every released referent; non-trivial = a history with >= 3 moves of pointer-holding entities between tables and concurrent collections; the GC schedule is not controlled (stress exploration)"
+		st.Rule = "(t) 13 call-site templates (World.Set/Assign/NewEntityWith, Builder.New/NewBatchQ/Add, generic Map.Set/Map1.NewWith/Assign, slice, string, write through the Get pointer) whose component literal and referent are locals of a non-inlined function: after it returns the stack is overwritten (generated depth), a GC forced, the entity moved to another table and the referent read back - all templates are walked in every run; (a) generated histories of creations (three supply paths), removals, RemoveEntities, Add/Remove of other components (moves between tables), batch moves (Batch.Add/Remove/Exchange, also removing a pointer-holding component from all its carriers at once), both registration orders of pointer-free and pointer-holding components, relation retargeting, overwriting and Reset on entities whose components hold *T, []T, map, string(+pointer), string only, interface only, func (closure) only, and a relation component with a pointer, referents allocated before and reachable only through the component, with capacity increment 1-2 (growth every few entities) while 0-4 goroutines force collections continuously; after every op every referent is read through its component (token and padding intact) and no referent may have been finalized while its component exists; (b) after removal of the component/entity, overwriting or Reset, a deterministic flush (GC, sentinel finalizer, GC, three rounds) must have run the finalizer of every released referent; non-trivial = a history with >= 3 moves of pointer-holding entities between tables and concurrent collections; the GC schedule is not controlled (stress exploration)"
 		if path, ok := replaying(); ok {
 			var c gcCase
 			if err := core.ReadReplay(path, &c); err != nil {
@@ -815,7 +849,8 @@ func TestC14(t *testing.T) {
 				c.Cap = rapid.SampledFrom([]int{1, 1, 2, 4, 128}).Draw(rt, "cap")
 				c.GCers = rapid.SampledFrom([]int{0, 1, 2, 4, 4}).Draw(rt, "gcers")
 				n := rapid.IntRange(5, 60).Draw(rt, "nops")
-				kinds := []string{"new", "new", "new", "rm", "rmall", "addplain", "addplain", "remplain", "tag", "tag", "batchtag", "settarget", "settarget", "overwrite", "rempointer", "reset", "flush"}
+				kinds := []string{"new", "new", "new", "rm", "rmall", "addplain", "addplain", "remplain", "tag", "tag", "batchtag", "batchuntag", "batchexch", "batchrempointer", "settarget", "settarget", "overwrite", "rempointer", "reset", "flush"}
+				c.PlainFirst = rapid.Bool().Draw(rt, "plainfirst")
 				for i := 0; i < n; i++ {
 					k := rapid.SampledFrom(kinds).Draw(rt, "k")
 					if k == "reset" && rapid.IntRange(0, 3).Draw(rt, "rarereset") != 0 {
